@@ -1183,6 +1183,18 @@ static void app_set_servers_now(int arg, int quiescent)
           vh_trace("set_servers '%s' -> %d; list now '%s'", csv, x_rc, now_csv ? now_csv : "(null)");
           ares_free_string(now_csv);
         }
+        if (x_rc == ARES_SUCCESS && n > 0 && (app_cfg.flags & ARES_FLAG_PRIMARY)) {
+          /* ARES_FLAG_PRIMARY: "only query the first server in the list" - the first of the list just given, whatever
+           * the servers' failure counts */
+          char  want1[256];
+          char *got1 = ares_get_servers_csv(app_channel);
+          app_servers_csv(want1, sizeof(want1), idx, 1);
+          sim_note("rule_primary_keeps_first");
+          if (got1 != NULL && strcmp(got1, want1) != 0) {
+            vh_violation("health:primary-not-first", "ARES_FLAG_PRIMARY and server list '%s': the channel keeps '%s', the first one is '%s'", csv, got1, want1);
+          }
+          ares_free_string(got1);
+        }
         if (x_rc == ARES_SUCCESS) {
           /* does the (ordered) server list differ?  Re-installing the same list is not a change; the same servers in
            * another order are another list (the order is the failover order) */
